@@ -73,6 +73,29 @@ def gen_import(rnd):
     return f"from {mod} import " + ", \\\n    ".join(parts)
 
 
+def related_modules(mod):
+    """modules that are NOT `mod` but look related to it: sub-packages, ancestors, siblings, look-alikes"""
+    out = [mod + ".sub", mod + ".types", mod + ".errors", mod + ".validator", mod + "x", mod[:-1], mod.upper(), "x" + mod, mod + ".",
+           "pkg." + mod]
+    if "." in mod:
+        parent = mod.rsplit(".", 1)[0]
+        out += [parent, parent + ".other", parent.split(".")[0]]
+    return [m for m in out if m and not m.endswith(".") and m.replace(".", "").isidentifier()]
+
+
+def related_module_sources():
+    """directed, every run: for every mapped (module, name) an import of that NAME from each related module (the pair is
+    mapped only if the mapping lists it for exactly that module), alone and next to a genuinely mapped import"""
+    out = []
+    for mod, names in mapping.items():
+        some = list(names)[:3] + list(names)[-1:]
+        for rel in related_modules(mod):
+            for n in some:
+                out.append(f"from {rel} import {n}\n")
+                out.append(f"from {rel} import {n} as local_{n}, unmapped_name\nfrom {mod} import {n}\nx = {n}\n")
+    return out
+
+
 def gen_module(rnd):
     n = rnd.randint(1, 7)
     stmts = []
@@ -314,9 +337,15 @@ def run(ctx):
                 ctx.violation("a mapped name changes (the import would bind a different local name)", old=n, new=new_name)
     reqs, exp, info = [], [], []
     n_mod = ctx.n(1500, 15000)
+    directed = related_module_sources()
+    ctx.count("related_module_sources", len(directed))
+    n_mod += len(directed)
     k = 0
     while k < n_mod:
-        src, has_mapped = gen_module(ctx.rnd)
+        if directed:
+            src, has_mapped = directed.pop(), True
+        else:
+            src, has_mapped = gen_module(ctx.rnd)
         try:
             before = ast.parse(src)
         except SyntaxError:
